@@ -26,7 +26,7 @@ def run(ctx: evid.Ctx) -> None:
             sess.report(ctx, PROP, role, b[role] if base == 0 else min(b[role], 2), res, base)
             ctx.note(f"{role}_bfs_levels_base{base}", res.levels)
     for role in ROLES:
-        nh, steps, viols = sess.long_runs(role, known, PROP)
+        nh, steps, viols = sess.long_runs(role, known, PROP, marathon=True)
         ctx.add("long_run_histories", nh)
         ctx.add("long_run_steps", steps)
         ctx.add("transitions", steps)
